@@ -134,6 +134,24 @@ def step_job(prop, cls, method, doms, kwdoms, tier, listeners, want, name_prefix
             groups[g] = ("frame", [ok_path, B(ctx.exc)], NOT(AND(*cs)))
     if "perm" in want and method.startswith("set:") and method[4:] in PERM_FIELDS.get(cls, {}):
         groups["perm:%s.%s" % (cls, method[4:])] = ("perm", [ok_path], NOT(perm_goal(run, cls, method[4:])))
+    if listeners == "recorder" and ({"mirror", "before", "phantom"} & set(want)):
+        from vf.e1 import events as EV
+        evs = ctx.events
+        if "mirror" in want:
+            mir = EV.Mirror(run["pre"])
+            for (g_, kind_, args_, snap_) in evs:
+                mir.apply(g_, kind_, args_, snap_)
+            skip_outer = (cls, method) == ("Instance", "set:reference")
+            for g, cs in EV.mirror_groups(mir, run["post"], skip_outer).items():
+                groups[g] = ("mirror", [ok_path, B(NOT(ctx.exc))], NOT(AND(*cs)))
+        if "before" in want:
+            cs = EV.before_clauses(evs)
+            if cs:
+                groups["before:announced-change-not-yet-visible"] = ("before", [ok_path], NOT(AND(*cs)))
+        if "phantom" in want and tw["refusal_reachable"] == "sat":
+            emitted = OR(*[g_ for (g_, k_, a_, s_) in evs if not k_.startswith("create_")])
+            groups["phantom:no-announcement-for-a-refused-change"] = (
+                "phantom", [ok_path, B(ctx.exc)], emitted)
     env = FindingEnv(run).namespace()
     if part:
         keys = sorted(groups)
@@ -237,4 +255,19 @@ def make_replay(prop, oname, run, mdl, cls, method, listeners, kind, group, tier
     return {"engine": "E1", "property": prop, "obligation": oname, "state": st, "call": call,
             "listeners": listeners, "tier": tier,
             "check": {"kind": kind, "group": group,
+                      "skip_outer": (cls, method) == ("Instance", "set:reference"),
                       "field": PERM_FIELDS.get(cls, {}).get(method[4:]) if kind == "perm" else None}}
+
+
+def validation_job(prop, seed, trials, budget_s):
+    """translator validation: the interpreter vs the real classes on random concrete steps"""
+    from vf.e1 import validate
+    t0 = time.time()
+    stats, problems, sample = validate.validate(seed, trials, budget_s)
+    bad = stats["mismatch"] + stats["unsupported"]
+    return [result("%s/translator-validation" % prop, ERROR if bad else DISCHARGED, "E1/symheap",
+                   validated=stats["ok"], queries=0, wall_s=time.time() - t0,
+                   detail=("interpreter and real code DISAGREE: %s" % problems) if bad else
+                   "interpreter == real code on %d random concrete steps (%d skipped); e.g. %s" % (
+                       stats["ok"], stats["skip"], sample[:2]),
+                   bounds={"seed": seed, "trials": trials})]
